@@ -543,6 +543,8 @@ def main():
         c.nontrivial(("class", mode, cls, sort, tuple(kd for _, kd in chain)) + tuple(r[k_] for k_ in FIELDS))
         cov_key = "class listing %s / %s" % (reason_class(r)[0], "row board is a class" if ba & CLASS_BITS else "row board is no class")
         class_cov[cov_key] = class_cov.get(cov_key, 0) + 1
+        if len(want_cls) == (len(chain) if mode == 1 else 0) + 5:
+            class_cov["class listing filling the bound of ChildCount + 5 entries"] = class_cov.get("class listing filling the bound of ChildCount + 5 entries", 0) + 1
         try:
             if f[0] != "0":
                 raise ValueError("status")
